@@ -368,7 +368,11 @@ func runHierarchy(tag string, ents []entity, profiles []*Profile) int {
 			sha = "[(" + cqBytes(o.spkiBits) + ", " + cqBytes(s1[:]) + "); (" + cqBytes(issuerBits) + ", " + cqBytes(s2[:]) + ")]"
 			selfChecks(tag, e, issuerEnt, o, obs)
 		}
-		st := ""; if o == nil { st = " status=" + status }; fmt.Fprintf(out, "CASE %d %s %s %s :: %s%s\n", caseNo, tag, e.name, map[bool]string{true: "cert", false: "nocert"}[o != nil], jsonText(e.cfg.tree()), st)
+		st := ""
+		if o == nil {
+			st = " status=" + status
+		}
+		fmt.Fprintf(out, "CASE %d %s %s %s :: %s%s\n", caseNo, tag, e.name, map[bool]string{true: "cert", false: "nocert"}[o != nil], jsonText(e.cfg.tree()), st)
 		fmt.Fprintf(out, "COQ (true, mkCase %s %s %s %s %s %s %s)\n", e.profile.Coq(), e.cfg.Coq(), obsTerm, issuerTerm, cqB(signerKey), sha, expect)
 	}
 	return firstFailed
